@@ -676,17 +676,14 @@ impl SlabRouter {
             WalEntry::MetadataDelete { key } => {
                 self.metadata.delete(key);
             },
-            WalEntry::EmbeddingSet {
-                entity_id,
-                embedding,
-            } => {
-                if let Err(e) = self.embeddings.set(*entity_id, embedding) {
-                    tracing::warn!(
-                        entity_id = %entity_id.as_u64(),
-                        error = %e,
-                        "Failed to restore embedding during WAL replay"
-                    );
-                }
+            WalEntry::EmbeddingSet { .. } => {
+                // The entity id in the record is the id the key had in the session that wrote
+                // it; replay assigns ids of its own, so that id may belong to a different key
+                // here. `put_durable` always logs the `MetadataSet` record of the same put right
+                // after this one, and that record carries the vector and stores it under the
+                // id the key has in this session. Applying this record as well could only
+                // attach the vector to the wrong key, or to the right key without its metadata
+                // when the log ends between the two records.
             },
             WalEntry::EmbeddingDelete { entity_id } => {
                 self.embeddings.delete(*entity_id);
